@@ -24,6 +24,8 @@ pub struct Spec {
     pub downgrade: bool,
     pub auth: Option<(String, Vec<u8>)>,
     pub will: Option<WillSpec>,
+    /// every setter of the builder that may be called again is first called with a decoy value (the last call counts)
+    pub decoys: bool,
 }
 
 #[derive(Clone, Debug)]
@@ -46,6 +48,7 @@ impl Spec {
             downgrade: false,
             auth: None,
             will: None,
+            decoys: false,
         }
     }
 }
@@ -78,6 +81,14 @@ pub fn with_session<R>(spec: &Spec, f: impl for<'b> FnOnce(&Bench, &mut Session<
         }
     } else {
         ConfigBuilder::new(Buffers::new(&mut rx, &mut tx))
+    };
+    let builder = if spec.decoys {
+        match builder.client_id("decoy-identifier") {
+            Ok(b) => b.keepalive_interval(7).session_expiry_interval(9),
+            Err(e) => return Built::Config(format!("{:?}", e)),
+        }
+    } else {
+        builder
     };
     let mut b = match builder.client_id(&spec.id) {
         Ok(b) => b,
